@@ -753,6 +753,24 @@ class Emitter:
                 return (st[1][1], r[1][0])
         return None
 
+    def has_alias(self, node):
+        """does the expression contain a guard alias declaration (`let g = self.f.lock()`) in one of its blocks?"""
+        found = []
+
+        def walk(n):
+            if isinstance(n, tuple):
+                if n and n[0] == "let" and len(n) == 4 and self.lock_alias(n) is not None:
+                    found.append(n)
+                if n and n[0] == "closure":
+                    return
+                for x in n:
+                    walk(x)
+            elif isinstance(n, list):
+                for x in n:
+                    walk(x)
+        walk(node)
+        return bool(found)
+
     def alias_open(self, al, env):
         """register the alias, return the `let` that introduces it"""
         g, tgt = al
@@ -924,6 +942,8 @@ class Emitter:
             elif k in ("unary", "deref", "ref", "paren", "cast", "field"):
                 walk_expr(e[1] if k not in ("unary",) else e[2], local)
             elif k == "call":
+                if e[1][0] == "path" and e[1][1] == ["fastrand", "usize"] and getattr(self.p, "rs_mode", False) and "rs__" not in local:
+                    add("rs__")
                 if e[1][0] == "path" and self.p.fn_mut(e[1][1][-1]) is not None:
                     for i in self.p.fn_mut(e[1][1][-1]):
                         a = strip_guard(e[2][i])
@@ -1116,6 +1136,11 @@ class Emitter:
                     env.append(v)
             rhs = s[3]
             self.p.note_let(s[1], rhs)
+            if getattr(self.p, "rs_mode", False) and rhs[0] == "call" and rhs[1][0] == "path" and rhs[1][1] == ["fastrand", "usize"] \
+                    and len(rhs[2]) == 1 and rhs[2][0][0] == "range_to":
+                self.p.uses_rand = True
+                return [self.let("(r__, rs__)", "RustLite.nextRand rs__"),
+                        self.let(self.pat(s[1]), f"(RustLite.randBelow r__ {self.expr(rhs[2][0][1], env)})")]
             # `let x = recv.mutating_method(args)...;`  hoist the mutation
             if rhs[0] == "withret":
                 blk = rhs[1]
@@ -1125,6 +1150,13 @@ class Emitter:
                          value=lambda ast, env2: "(" + ", ".join([self.expr(ast, env2)] + [ident(w) for w in ws]) + ")")
                 text = seq(self, list(blk[1]), list(env), K, "; ", tail=blk[2])
                 return [self.let("(" + ", ".join([self.pat(s[1])] + [ident(w) for w in ws]) + ")", "(" + text + ")")]
+            if rhs[0] in ("if", "iflet", "match", "block") and self.has_alias(rhs):
+                ws = self.assigned(rhs, [v for v in env if v not in self.pat_vars(s[1])])
+                if ws:
+                    K = Cont(normal=lambda env2: self.fail("branch without a value", rhs), ret=None, brk=None,
+                             value=lambda ast, env2: "(" + ", ".join([self.expr(ast, env2)] + [ident(w) for w in ws]) + ")")
+                    text = seq(self, [], list(env), K, "; ", tail=rhs)
+                    return [self.let("(" + ", ".join([self.pat(s[1])] + [ident(w) for w in ws]) + ")", "(" + text + ")")]
             if rhs[0] in ("if", "iflet", "match", "block"):
                 ws = self.assigned(rhs, [v for v in env if v not in self.pat_vars(s[1])])
                 if ws:
@@ -1646,6 +1678,8 @@ class PureProfile(BaseProfile):
         self.uses_clock = False
         self.uses_rand = False
         self.uses_fuel = False
+        self.uses_size = False
+        self.rs_mode = False
 
     FIELDS = {"frequency": "hits", "inserted_at": "birth", "value": "val"}
 
@@ -1675,6 +1709,8 @@ class PureProfile(BaseProfile):
             return ("RustLite.pushBack", False)
         if name == "retain":
             return ("RustLite.retain", False)
+        if name == "pop_back" and (recv is None or kind == "deque"):
+            return ("RustLite.popBack", True)
         if name == "clear" and (recv is None or kind in ("map", "deque")):
             return ("RustLite.clearAll", False)
         if name == "insert" and (recv is None or kind == "map"):
@@ -1721,7 +1757,9 @@ class PureProfile(BaseProfile):
         self.uses_float = self.uses_float or "A" in f["implicit"]
         self.uses_clock = self.uses_clock or "clock" in f["implicit"]
         self.uses_rand = self.uses_rand or "r" in f["implicit"]
-        return " ".join([f.get("lean_name", name)] + f["implicit"] + ["(" + a + ")" for a in args])
+        self.uses_size = self.uses_size or "size" in f["implicit"]
+        imp = [("(RustLite.headRand rs__)" if (x == "r" and self.rs_mode) else x) for x in f["implicit"]]
+        return " ".join([f.get("lean_name", name)] + imp + ["(" + a + ")" for a in args])
 
     def let_type(self, ty):
         try:
@@ -1810,9 +1848,9 @@ class PureProfile(BaseProfile):
 
     def field(self, recv, name, em, env):
         if name in self.FIELDS:
-            return "(" + em.expr(recv, env) + ")." + self.FIELDS[name]
+            return "(Entry." + self.FIELDS[name] + " " + em.expr(recv, env) + ")"
         if name in self.TUPLE_FIELDS:          # the async entry is the tuple (value, unix seconds of the store, frequency)
-            return "(" + em.expr(recv, env) + ")." + self.TUPLE_FIELDS[name]
+            return "(Entry." + self.TUPLE_FIELDS[name] + " " + em.expr(recv, env) + ")"
         if name == "1":
             return "(RustLite.tsSecs " + em.expr(recv, env) + ")"
         return None
@@ -1836,6 +1874,8 @@ class PureProfile(BaseProfile):
             return "clock.now"
         if segs == ["fastrand", "usize"] and len(args) == 1 and args[0][0] == "range_to":
             self.uses_rand = True
+            if self.rs_mode:
+                raise Untranslatable("`fastrand` call that was not hoisted")
             return f"(RustLite.randBelow r {em.expr(args[0][1], env)})"
         return None
 
@@ -1852,6 +1892,22 @@ class PureProfile(BaseProfile):
             return R()
         if name in GUARD_METHODS and not args:
             return R()          # a guard on a field / cell: the guarded value itself
+        if name == "values" and not args and kind == "map":
+            return f"(RustLite.values {R()})"
+        if name == "map" and len(args) == 1:
+            r_ = recv
+            while r_[0] in ("paren", "ref", "deref"):
+                r_ = r_[1]
+            if r_[0] == "mcall" and r_[2] in ("get", "get_mut", "as_ref", "cloned"):
+                return f"(Option.map {A_(0)} {R()})"
+            return f"(List.map {A_(0)} {R()})"
+        if name == "unwrap_or" and len(args) == 1:
+            return f"(Option.getD {R()} {A_(0)})"
+        if name == "sum" and not args:
+            return f"(RustLite.sum {R()})"
+        if name == "estimate_memory" and not args:
+            self.uses_size = True
+            return f"(size {R()})"
         if name == "enumerate" and not args:
             return f"(RustLite.enumerate {R()})"
         if name == "position" and len(args) == 1:
@@ -1981,7 +2037,7 @@ UTIL_FILES = [
     ("Policy", "cachelito-core/src/eviction_policy.rs", None, {}, ["is_valid", "from"]),
     ("Global", "cachelito-core/src/global_cache.rs", "RustLite.GlobalCache K V F",
      {"self.map": "map", "self.order": "deque", "self.frequency_weight": "optf64", "self.stats": "stats"},
-     ["handle_entry_limit_eviction", "insert", "increment_frequency", "get", "clear", "insert_result"]),
+     ["handle_entry_limit_eviction", "insert", "increment_frequency", "get", "clear", "insert_result", "insert_with_memory"]),
     ("Thread", "cachelito-core/src/thread_local_cache.rs", "RustLite.ThreadCache K V F",
      {"self.cache": "map", "self.order": "deque", "self.frequency_weight": "optf64", "self.stats": "stats"},
      ["move_to_end", "increment_frequency", "remove_key", "remove_key_with_order", "handle_entry_limit_eviction", "insert", "get", "insert_result"]),
@@ -2258,8 +2314,20 @@ def seq(em, stmts, env, K, sep="; ", tail=None):
     return go(0, list(env))
 
 
+def contains_loop(node):
+    if isinstance(node, tuple):
+        if node and node[0] == "loop":
+            return True
+        return any(contains_loop(x) for x in node)
+    if isinstance(node, list):
+        return any(contains_loop(x) for x in node)
+    return False
+
+
 def emit_fn_body(em, f, env, muts):
     """the body of a translated function: `let`s ending in its result — (value, new values of the mutated parameters)"""
+    if getattr(em.p, "rs_mode", False):
+        env = list(env) + ["rs__"]
     def result(tail_text):
         if tail_text is not None:
             return "(" + ", ".join([tail_text] + [ident(m) for m in muts]) + ")" if muts else tail_text
@@ -2268,7 +2336,8 @@ def emit_fn_body(em, f, env, muts):
     tail = b[2]
     K = Cont(normal=lambda env2: result(em.expr(tail, env2) if tail is not None else None),
              ret=lambda v, env2: result(em.expr(v, env2) if v is not None else None), brk=None)
-    return "  " + seq(em, list(b[1]), list(env), K, sep="\n  ")
+    pre = "let rs__ := rs\n  " if getattr(em.p, "rs_mode", False) else ""
+    return "  " + pre + seq(em, list(b[1]), list(env), K, sep="\n  ")
 
 
 EXTERNAL = {}      # functions of modules translated earlier: name -> table entry (with qualified lean_name)
@@ -2348,6 +2417,7 @@ def translate_utils(module, skip=()):
             prof = PureProfile(kinds, table)
             em = Emitter(prof, f"{rel}:{f['line']} ({name})")
             body_of(f)
+            prof.rs_mode = contains_loop(f["body"])
             muts = [f["params"][i][0] for i in table[name]["mut_idx"]]
             # interior mutability: `&self` methods that mutate a cell of self return the new self
             if "self" in kinds and "self" not in muts and "self" in em.assigned(f["body"], ["self"] + [p[0] for p in f["params"]]):
@@ -2367,15 +2437,21 @@ def translate_utils(module, skip=()):
             if bodies[n][2].uses_clock:
                 need[n].add("clock")
             if bodies[n][2].uses_rand:
-                need[n].add("r")
+                need[n].add("rs" if bodies[n][2].rs_mode else "r")
+            if bodies[n][2].uses_fuel:
+                need[n].add("fuel")
+            if bodies[n][2].uses_size:
+                need[n].add("size")
         while changed:
             changed = False
             for n in wanted:
                 for m in wanted:
-                    if m != n and re.search(r"\b" + re.escape(m) + r"\b", bodies[n][1]) and not need[m] <= need[n]:
-                        need[n] |= need[m]; changed = True
+                    if m != n and re.search(r"\b" + re.escape(m) + r"\b", bodies[n][1]):
+                        inherited = {("rs" if (x == "r" and bodies[n][2].rs_mode) else x) for x in need[m]}
+                        if not inherited <= need[n]:
+                            need[n] |= inherited; changed = True
         for n in wanted:
-            table[n]["implicit"] = [x for x in ("A", "clock", "r") if x in need[n]]
+            table[n]["implicit"] = [x for x in ("A", "clock", "size", "fuel", "r", "rs") if x in need[n]]
         # second emission now that implicit arguments of callees are known
         for name in wanted:
             hdr, f = byname[name]
@@ -2385,6 +2461,7 @@ def translate_utils(module, skip=()):
                 kinds[pn] = "self" if pn == "self" else lean_type(pt, pn)[1]
             prof = PureProfile(kinds, table)
             em = Emitter(prof, f"{rel}:{f['line']} ({name})")
+            prof.rs_mode = contains_loop(f["body"])
             env = [p[0] for p in f["params"]]
             body = emit_fn_body(em, f, env, muts)
             imp = []
@@ -2392,8 +2469,14 @@ def translate_utils(module, skip=()):
                 imp.append("(A : RustLite.F64 F)")
             if "clock" in need[name]:
                 imp.append("(clock : RustLite.Clock)")
+            if "size" in need[name]:
+                imp.append("(size : V → Nat)")
+            if "fuel" in need[name]:
+                imp.append("(fuel : Nat)")
             if "r" in need[name]:
                 imp.append("(r : Nat)")
+            if "rs" in need[name]:
+                imp.append("(rs : List Nat)")
             lname = {"from": "policyFrom", "is_valid": "policyIsValid"}.get(name, name)
             if lname != name:
                 table[name]["lean_name"] = lname
